@@ -26,7 +26,9 @@ const VERSIONS: [(u8, u8); 5] = [(1, 0), (2, 1), (3, 0), (3, 1), (4, 0)];
 const MECHS: [&str; 4] = ["NULL", "PLAIN", "CURVE", "WEIRD"];
 const SIGS: [&str; 3] = ["ok", "byte0", "byte9"];
 const IDENTS: [&str; 5] = ["none", "empty", "1", "255", "256"];
-const FIRST: [&str; 3] = ["ready", "other-command", "message"];
+/// what follows the greeting; "+ready": the same, with a perfectly valid READY right behind it
+/// (skipping the unexpected item instead of rejecting the connection would then admit it)
+const FIRST: [&str; 6] = ["ready", "other-command", "message", "other-command+ready", "ping+ready", "message+ready"];
 
 /// RFC 23/28/29/30 socket compatibility, written independently of zmq.rs.
 pub fn rfc_compatible(a: &str, b: &str) -> bool {
@@ -162,6 +164,21 @@ impl Point {
                     list.push((b"Identity", id));
                 }
                 v.extend(rc::command(b"ERROR", &rc::props(&list)));
+            }
+            "other-command+ready" | "ping+ready" | "message+ready" => {
+                match self.first.as_str() {
+                    "other-command+ready" => v.extend(rc::command(b"ERROR", b"\x05oops!")),
+                    "ping+ready" => v.extend(rc::command(b"PING", b"\x00\x0a")),
+                    _ => v.extend(rc::message(&[b"hello".to_vec()])),
+                }
+                let mut list: Vec<(&[u8], &[u8])> = Vec::new();
+                if self.peer != "<missing>" {
+                    list.push((b"Socket-Type", self.peer.as_bytes()));
+                }
+                if let Some(id) = &id {
+                    list.push((b"Identity", id));
+                }
+                v.extend(rc::command(b"READY", &rc::props(&list)));
             }
             _ => v.extend(rc::message(&[b"hello".to_vec()])),
         }
